@@ -1020,6 +1020,28 @@ def status_line_scenario(ctx, viol):
                 return stats
         finally:
             pr.destroy()
+    # line counts with thousands separators: a script that writes 1 500 lines and then pauses with the status line on
+    if not viol:
+        pr = Project()
+        try:
+            pr.write("big.do", "seq 1 1500 | sed 's/^/n/' >&2\nsleep 1.8\necho end >&2\necho x\n")
+            width = 60
+            rc, err = run_on_terminal(pr, ["redo", "--status", "--no-pretty", "--no-color", "big"], width, timeout=60)
+            seen = set(x for x in re.findall(r"\r([^\r\n]*)\r", err) if x.strip())
+            reqs = ["status-line %d %d %s" % (width, n, ",".join(hx(x) for x in st) if st else "") for n in range(0, 1600) for st in ([], ["big"])]
+            allowed = set(unhx(x).decode() for x in run_lines(MODEL, reqs) if x != "bad-op")
+            stats["status_lines_seen"] = stats.get("status_lines_seen", 0) + len(seen)
+            stats["status_lines_with_separator"] = sum(1 for x in seen if re.match(r"^redo \d,\d\d\d ", x))
+            odd = sorted(seen - allowed)
+            lines = [l for l in re.sub(r"\r[^\r\n]*\r", "", err).split("\n")]
+            if odd and "panicked" not in err:
+                p = write_replay("C18", "corr-status-line", dict(kind="model-vs-impl", layer="StatusLine.status / thousands", width=width, seen=sorted(seen), not_produced_by_model=odd))
+                viol.append(Violation("C18", p, "the status line %r (width %d, more than a thousand lines read) is not what the model of the status arithmetic produces" % (odd[0], width), no_input=True))
+            elif rc != 0 or lines.count("n1500") != 1 or lines.count("end") != 1 or "panicked" in err:
+                p = write_replay("C18", "status-line-big", dict(kind="impl-monitor", rc=rc, tail=err[-800:]))
+                viol.append(Violation("C18", p, "live output with the status line on and 1 500 lines: exit %d, 'n1500' shown %d times, 'end' %d times" % (rc, lines.count("n1500"), lines.count("end"))))
+        finally:
+            pr.destroy()
     return stats
 
 
